@@ -1,5 +1,6 @@
 // vh: correspondence / specification harness.  One sub-command per property.
-//   vh <Cxx> -tier quick|thorough -seed N -out result.json [-replay file]
+//
+//	vh <Cxx> -tier quick|thorough -seed N -out result.json [-replay file]
 package main
 
 import (
